@@ -27,5 +27,4 @@ def run(tier, seed, t0):
 
 
 def replay(path):
-    print("C15 replays re-run the whole (fast) part named in the case id; use ./vcheck C15")
-    sys.exit(2)
+    vlib.replay_enum(PID, build(), path, env={"GOMAXPROCS": "4"})
